@@ -24,7 +24,8 @@ for pid in ALL:
             "design_ref": c.get("design_ref", "DESIGN.md §5"),
         },
         "level_note": c.get("level_note", "Trusted: Lean kernel; axioms propext/Classical.choice/Quot.sound only; the model-to-code tie is the sampled correspondence check (harness + gmodel); codec crates, std and rayon are modelled by their contracts."),
-        "technique": c.get("technique", "machine-checked proof in Lean 4 (induction/invariants over a hand-written model) + differential correspondence check against the real crate"),
+        "technique": c.get("technique", "machine-checked proof in Lean 4 (induction/invariants over a hand-written model) + differential correspondence check against the real crate"
+                           + ("; for the leaf functions it rests on, Lean definitions regenerated from /repo/src by a translator on every run and proved equal to the model (" + ", ".join(m.split(".")[-1] for m in c["srctie"]) + ")" if c.get("srctie") else "")),
     })
 m = {
     "version": 1,
@@ -40,7 +41,7 @@ m = {
         "name": "lean-proof+correspondence",
         "path": "check",
         "serves_properties": [c["property_id"] for c in checks],
-        "kind_free_text": "Lean 4 theorems (lean/Grenad/Props) about an executable hand-written model (lean/Grenad/Model), audited with #print axioms; Rust harness (harness/) drives the real crate and the compiled model (gmodel) on the same operation lines and compares them with the L0 specification",
+        "kind_free_text": "Lean 4 theorems (lean/Grenad/Props) about an executable hand-written model (lean/Grenad/Model), audited with #print axioms; a translator (r2l) regenerates Lean definitions of leaf functions from /repo/src on every run and lean/Grenad/SrcTie proves them equal to the model; Rust harness (harness/) drives the real crate and the compiled model (gmodel) on the same operation lines and compares them with the L0 specification",
     }],
     "checks": checks,
     "notes": "See DESIGN.md. Every check rebuilds the harness against /repo's working tree and the Lean property module, then runs proof audit + correspondence.",
